@@ -138,8 +138,9 @@ func (c *checker) execute(s *Search, ops []Op) (vios []vio, nAnswers int, agreed
 			}
 			g := a.Got[wrong[0]]
 			sig := classify(a.Q, a.Want, g.Items, panicked, wrong, a.Obs, m, m2, op, ans)
-			if s.IDs != "" && op.R != "" {
-				// searches over related request ids: how the id the operation addressed relates to the others of its DAG
+			if s.IDs != "" && (op.K == "update" || op.K == "write" || op.K == "close") {
+				// searches over related request ids, operations on a run already on record: how the id the
+				// operation addressed relates to the other ids of its DAG
 				if dg, _ := m2.findAny(op.R); dg != "" {
 					sig += "/addressed-id=" + idRelation(op.R, m2.Runs[dg])
 				}
